@@ -138,7 +138,7 @@ class TestRecording:
     # ------------------------------------------------------------------ traces
     def traces(self):
         """One trace per worklist (a single base trace if the test used none)."""
-        if self.dead or not self.labware or not self.events:
+        if self.dead or not self.events or (not self.labware and not self.worklists):
             return []
         out = []
         owners = list(range(len(self.worklists))) or [None]
@@ -393,7 +393,8 @@ def install():
             kw = dict(arg.get("kwargs") or {})
             ws = arg.get("wash_scheme")
             if ws is None:
-                raise Unsupported("deprecated wash_scheme=None")
+                # deprecated spelling; the documented meaning is device specific (DeprecationWarning texts of both classes)
+                ws = "reuse" if cls is rt.EvoWorklist else "flush"
             a = {"src": rec.lw_index(arg["source"]) + 1, "dst": rec.lw_index(arg["destination"]) + 1, "sw": _wells(arg["source_wells"]),
                  "dw": _wells(arg["destination_wells"]), "vols": _vols(arg["volumes"]), "label": _label(arg.get("label")), "labelok": True,
                  "wash": str(ws), "pby": arg.get("partition_by"), "kw": _kw(kw)}
@@ -438,7 +439,41 @@ def install():
 
         return describe
 
-    for opname in ("comment", "wash", "decontaminate", "flush", "commit", "set_diti", "aspirate_well", "dispense_well", "reagent_distribution"):
+    def _numspec(x):
+        if isinstance(x, (int, np.integer)) and not isinstance(x, bool) and abs(int(x)) < 2**31:
+            return {"cls": "int", "v": int(x)}
+        raise Unsupported("number outside the generated domain")
+
+    def d_emit(opname):
+        """The simple emitters are judged like the generated `emit` operations (C09 clauses) when their arguments can be
+        projected; otherwise the call stays a raw event."""
+        def describe(rec, self, args, kwargs):
+            wi = rec.wl_index(self)
+            try:
+                arg = _bind(getattr(BaseWorklist, "__orig_" + opname), self, args, kwargs)
+                if opname == "comment":
+                    c = arg["comment"]
+                    if c is not None and not isinstance(c, str):
+                        raise Unsupported("comment is not a string")
+                    a = {"fn": "comment", "isnone": c is None, "sep": isinstance(c, str) and ";" in c,
+                         "lines": [ln.strip() for ln in c.split("\n")] if isinstance(c, str) and c else []}
+                    json.dumps(a).encode("ascii")
+                elif opname == "wash":
+                    a = {"fn": "wash", "given": True, "n": _numspec(arg["scheme"])}
+                elif opname == "set_diti":
+                    a = {"fn": "set_diti", "n": _numspec(arg["diti_index"])}
+                else:
+                    a = {"fn": opname}
+                return wi, "emit", a, None
+            except Exception:  # noqa
+                return wi, "rawemit", {"fn": opname}, None
+
+        return describe
+
+    for opname in ("comment", "wash", "decontaminate", "flush", "commit", "set_diti"):
+        setattr(BaseWorklist, "__orig_" + opname, BaseWorklist.__dict__[opname])
+        _wrap(BaseWorklist, opname, d_emit(opname))
+    for opname in ("aspirate_well", "dispense_well", "reagent_distribution"):
         _wrap(BaseWorklist, opname, d_raw(opname))
     for opname in ("evo_aspirate", "evo_dispense", "evo_wash"):
         _wrap(rt.EvoWorklist, opname, d_raw(opname))
